@@ -587,6 +587,9 @@ Lemma bind_ext {A B} (m1 m2 : res A) (k1 k2 : A -> res B) :
   m1 = m2 -> (forall x, k1 x = k2 x) -> bind m1 k1 = bind m2 k2.
 Proof. intros Hm Hk. subst m2. destruct m1 as [a|e]; cbn; [apply Hk | reflexivity]. Qed.
 
+Lemma bind_ret_r {A} (m : res A) : bind m (fun x => Ok x) = m.
+Proof. destruct m; reflexivity. Qed.
+
 Lemma mapM_ext {A B} (f g : A -> res B) (l : list A) :
   (forall x, f x = g x) -> mapM f l = mapM g l.
 Proof.
